@@ -214,6 +214,8 @@ Section Wiring.
   Inductive acc_result := AccPanic | AccErr | AccOk (a : TlsAcceptor).
 
   (* ServerTlsConfig::tls_acceptor = TlsAcceptor::new(self.identity.as_ref().unwrap(), ..).
+     [config.session_storage] is not touched: every call builds a new rustls ServerConfig, which
+     comes with a session cache of its own (see [spawn_servers] below).
      A client CA that yields no parsable certificate leaves the root store empty and
      WebPkiClientVerifier::builder(..).build()? fails (or the PEM reader fails before that) *)
   Definition tls_acceptor (s : ServerTlsConfig) : acc_result :=
@@ -381,6 +383,62 @@ Section Wiring.
     | ConnPlain => if reached then 7 else 6
     end.
 
+  (* ---------------------------------------------------------------- session resumption *)
+  (* A TLS listener in the process: an acceptor together with the session store of its
+     ServerConfig.  Stores are named by numbers. *)
+  Record listener := { l_store : nat; l_acc : TlsAcceptor }.
+
+  (* one listener per successful tls_acceptor call; the k-th ServerConfig owns store k *)
+  Fixpoint spawn_from (n : nat) (cfgs : list ServerTlsConfig) : list (option listener) :=
+    match cfgs with
+    | [] => []
+    | c :: r =>
+        (match tls_acceptor c with
+         | AccOk a => Some {| l_store := n; l_acc := a |}
+         | _ => None
+         end) :: spawn_from (S n) r
+    end.
+  Definition spawn_servers (cfgs : list ServerTlsConfig) : list (option listener) := spawn_from O cfgs.
+
+  Definition listeners (l : list (option listener)) : list listener :=
+    flat_map (fun o => match o with Some x => [x] | None => [] end) l.
+  (* specification vocabulary: no two listeners of the process share a session store *)
+  Definition store_injective (procs : list listener) : Prop :=
+    forall l l', In l procs -> In l' procs -> l_store l = l_store l' -> l = l'.
+
+  (* what a resumption-capable client holds for the server name: the store that keeps the
+     session and the peer certificates recorded in that session *)
+  Definition ticket : Type := (nat * option cert)%type.
+
+  (* rustls, server side, offered a ticket / session id: Some pc = the session is resumed, the
+     client-certificate request is skipped and [peer_certificates] is the stored [pc];
+     None = full handshake *)
+  Variable rustls_resume : listener -> ticket -> option (option cert).
+
+  (* assumed of rustls: a session is only ever resumed out of the store that holds it, with the
+     peer certificates it was stored with *)
+  Definition resume_sound : Prop :=
+    forall l sid pc pc', rustls_resume l (sid, pc) = Some pc' -> sid = l_store l /\ pc' = pc.
+
+  (* one connection of a client with identity [ident] and cached ticket [tk] to listener [l]:
+     what the listener yields, and the ticket the client holds afterwards *)
+  Definition visit (ident : option cert) (l : listener) (tk : option ticket)
+      : hs_server * option ticket :=
+    match (match tk with Some t => rustls_resume l t | None => None end) with
+    | Some pc => (SrvAccept pc, Some (l_store l, pc))
+    | None =>
+        match rustls_accept (l_acc l) ident with
+        | SrvAccept pc => (SrvAccept pc, Some (l_store l, pc))
+        | SrvReject => (SrvReject, None)
+        end
+    end.
+
+  Fixpoint visits (ident : option cert) (tk : option ticket) (ls : list listener) : list hs_server :=
+    match ls with
+    | [] => []
+    | l :: r => let (res, tk') := visit ident l tk in res :: visits ident tk' r
+    end.
+
   (* ---------------------------------------------------------------- what is assumed of rustls *)
   (* a completed client handshake means: the peer spoke TLS, its certificate chains to the
      root store of the client configuration and is valid for the name given to [connect] *)
@@ -470,6 +528,8 @@ Section Reference.
         | None => if allow then SrvAccept None else SrvReject
         end
     end.
+  Definition ref_resume (l : @listener cert ca) (t : @ticket cert) : option (option cert) :=
+    if Nat.eqb (fst t) (l_store l) then Some (snd t) else None.
 End Reference.
 
 (* ------------------------------------------------------------------ the finite test PKI *)
@@ -620,6 +680,19 @@ Definition obs_call_built (native : list caid) (s : scheme) (h : option dn)
   | BuildErr => tag 102 []
   | BuildOk sv => obs_call native true s h c (server_listener sv)
   end.
+
+(* servers built from [cfgs] in one process; a resumption-capable client (one shared rustls
+   ClientConfig, right roots, identity [ident]) connects to them in the order [order] (indices
+   into [cfgs]): per visit [handler ran; peer certificates] *)
+Definition obs_resumption (ident : option certid) (cfgs : list (@ServerTlsConfig certid caid))
+    (order : list nat) : tr :=
+  let procs := spawn_servers t_ca_usable cfgs in
+  let ls := flat_map (fun k => match nth k procs None with Some l => [l] | None => [] end) order in
+  olist (fun r => match r with
+                  | SrvAccept pc => Nd [obool true; oopt (fun x => Nn (cert_code x)) pc]
+                  | SrvReject => Nd [obool false; Nd []]
+                  end)
+        (visits t_accept ref_resume ident None ls).
 
 (* a bare rustls client offering [offers] against tonic's acceptor: 0 = aborted,
    1 = completed with the selected protocol *)
